@@ -67,6 +67,10 @@ fn c01_borrowed(rng: &mut Rng, n: u64, small: bool, rep: &mut Report) {
 				check(rep, concat!("&[", stringify!($t), "]"), (&v[..]).encode(), &c.bytes);
 				check(rep, concat!("&&Vec<", stringify!($t), ">"), (&&v).encode(), &c.bytes);
 				check(rep, concat!("Box<[", stringify!($t), "]>"), v.clone().into_boxed_slice().encode(), &c.bytes);
+				check(rep, concat!("Rc<[", stringify!($t), "]>"), std::rc::Rc::<[$t]>::from(v.clone()).encode(), &c.bytes);
+				check(rep, concat!("Arc<[", stringify!($t), "]>"), std::sync::Arc::<[$t]>::from(v.clone()).encode(), &c.bytes);
+				check(rep, concat!("Cow<[", stringify!($t), "]> borrowed"), std::borrow::Cow::Borrowed(&v[..]).encode(), &c.bytes);
+				check(rep, concat!("&mut [", stringify!($t), "]"), (&mut v.clone()[..]).encode(), &c.bytes);
 				let r: Ref<'_, Vec<$t>, Vec<$t>> = Ref::from(&v);
 				check(rep, concat!("Ref<Vec<", stringify!($t), ">>"), r.encode(), &c.bytes);
 			}
@@ -81,6 +85,9 @@ fn c01_borrowed(rng: &mut Rng, n: u64, small: bool, rep: &mut Report) {
 			check(rep, "str", s.as_str().encode(), &c.bytes);
 			check(rep, "&str", (&s.as_str()).encode(), &c.bytes);
 			check(rep, "Box<str>", s.clone().into_boxed_str().encode(), &c.bytes);
+			check(rep, "Rc<str>", std::rc::Rc::<str>::from(s.as_str()).encode(), &c.bytes);
+			check(rep, "Arc<str>", std::sync::Arc::<str>::from(s.as_str()).encode(), &c.bytes);
+			check(rep, "Cow<str> borrowed", std::borrow::Cow::Borrowed(s.as_str()).encode(), &c.bytes);
 			check(rep, "&mut String", (&mut s.clone()).encode(), &c.bytes);
 		}
 	}
